@@ -44,7 +44,7 @@ FlagWords == {NoFlags} \cup 0..7
 \* the text of call t is built around the marker m<t>. : "plain" the marker alone, "nl" ending in a newline,
 \* "mid" after a line break, "pad" between blanks.  (The recorded traces add shapes without a marker - the empty
 \* text, blanks only, a newline only - for which only "nothing when shut" can be observed.)
-MarkShapes == {"plain", "nl", "mid", "pad"}
+MarkShapes == {"plain", "nl", "mid", "pad", "uni"}        \* "uni": between non-ASCII letters
 NoMarkShapes == {"empty", "blank", "onlynl"}
 Streams == 1..2
 
@@ -169,7 +169,14 @@ Write(name, o, f, sh) ==
                  ids |-> OnStream(outs, tgt, res.ids, {}), any |-> OnStream(outs, tgt, res.any, FALSE)]
      /\ UNCHANGED obj
 
+\* Output.set_stream / set_formatter (IO.set_formatter for both outputs) after construction: the stream or formatter
+\* is exchanged, quiet and verbosity stay what they are
+Rewire(g) ==
+  /\ last' = [op |-> "rewire", g |-> g]
+  /\ UNCHANGED <<obj, outs, seen, shut, next>>
+
 Next == \/ \E g \in Groups, q \in BOOLEAN : SetQuiet(g, q)
+        \/ \E g \in Groups : obj.kind # "sections" /\ MaxTexts > 0 /\ Rewire(g)   \* (not in the setter-only run)
         \/ \E g \in Groups, v \in Verbs : SetVerbosity(g, v)
         \/ \E name \in SectionMethods \cup IOMethods, o \in DOMAIN outs, f \in Flags, sh \in TextShapes :
               (RoleOf(obj.kind) = "io" => o = 1) /\ Write(name, o, f, sh)
